@@ -4,7 +4,7 @@ import json, subprocess, sys
 
 GOENV = "env GOFLAGS=-mod=mod GOPROXY=off GOSUMDB=off GOTOOLCHAIN=local PATH=/opt/veriftools/go1.26.8/bin:$PATH"
 SETUP = f"cd /verif/engine && {GOENV} go build -o /verif/bin/vcheck ./cmd/vcheck && /verif/bin/vcheck selftest"
-TECH = "bounded symbolic execution of the real code: go/ssa -> guarded symbolic evaluation (symgo) -> SMT (z3 4.8.12 for BV/Bool, cvc5 1.0.3 for floating point); counterexamples replayed natively via go test -overlay"
+TECH = "bounded symbolic execution of the real code: go/ssa -> guarded symbolic evaluation (symgo) -> SMT (z3 5.1.0 for BV/Bool, cvc5 1.0.3 for floating point; thread harnesses: explicit-path exploration of schedules with symbolic data); counterexamples replayed natively via go test -overlay"
 
 # property -> (text, note, design_ref)   -- only properties whose checks run clean on the unchanged tree are listed
 CLAIMS = {}
